@@ -21,17 +21,6 @@ Theorem palette_moded_mode_independent : forall pal_data img w h, w < 65536 -> h
 Proof. intros. rewrite !tpl_ci8_image_m_ok by assumption. reflexivity. Qed.
 
 (* ---------------- (bpp * w as f32 * h as f32) as usize ---------------- *)
-(* round to nearest, ties to even, to 24 significant bits: the value of a non-negative integer after a binary32 operation *)
-Definition round24 (p : N) : N :=
-  if p <? 2 ^ 24 then p else
-  let e := N.log2 p - 23 in
-  let q := p / 2 ^ e in let r := p mod 2 ^ e in let half := 2 ^ (e - 1) in
-  (if (half <? r) || ((r =? half) && N.odd q) then q + 1 else q) * 2 ^ e.
-
-(* bpp * w is exact for u16 w (at most 18 bits); the second product is rounded; bpp2 = 2 * bpp keeps everything integral
-   (scaling by two is exact in binary floating point); `as usize` truncates *)
-Definition payload_size_f32 (fmt w h : N) : N := round24 (bpp2 fmt * w * h) / 2.
-
 Lemma round24_small p : p < 2 ^ 24 -> round24 p = p.
 Proof. intros H. unfold round24. destruct (N.ltb_spec p (2 ^ 24)); [reflexivity|lia]. Qed.
 
